@@ -476,7 +476,14 @@ def record_tables(draw: Any, max_recs: int = 12,
             "li_t": draw(st.integers(0, 50000)),
             "fe_extra": draw(st.integers(0, 1000)),
             "t_extra": draw(st.integers(0, 5000)),
-            "goal": goal, "max_fes_extra": mfe, "max_t": mt})
+            "goal": goal, "max_fes_extra": mfe, "max_t": mt,
+            "bounds_kept": None})
+    if draw(st.integers(0, 3)) == 0:
+        # records with different sets of bin-count bounds (result tables
+        # only: statistics need identical bounds within a group)
+        for rec in recs:
+            rec["bounds_kept"] = draw(st.one_of(st.none(), st.lists(
+                st.booleans(), min_size=3, max_size=3)))
     return {"insts": insts, "recs": recs, "goal_mode": goal_mode,
             "custom": custom,
             "key_order": draw(st.sampled_from([0, 0, 1, 2]))}
